@@ -83,7 +83,11 @@ type Mark struct {
 	// hold a NaN of that width.
 	NaN int
 	Hi  bool
-	Why string
+	// HasAlt: the 32-bit cell may alternatively hold Alt (used by the harness
+	// for known findings whose signature is "the other well-defined value").
+	HasAlt bool
+	Alt    uint32
+	Why    string
 }
 
 // State is the architectural state one instruction reads and writes.
